@@ -68,6 +68,16 @@ def option_items(tier):
         for lst in ([1], [2, 1], [3, 1, 2], [0, 2]):
             out.append((sp, dict(o, post_insert=lst)))
             out.append((sp, dict(o, post_insert=lst, reload=True)))
+        # absence steps deleted from the result afterwards; the list given to simulate() may name steps beyond the end of the run
+        for lst in ([1], [0, 2], [1, 50], [2, 3, 60], [70]):
+            out.append((sp, dict(o, absence=lst, post_remove=True)))
+    # backward runs (logs reversed into forward-time reading, and left as they are) of models whose cost profile is not a palindrome
+    back = [it for it in items(tier) if it[0].get("workplaces") and it[1]["max_time"] > 2][:: (3 if tier == "quick" else 1)]
+    back += [(F.two_team_workplace_spec(), {"rule": "TSLACK", "max_time": 20})] + [(sp, {"rule": "TSLACK", "max_time": 30}) for sp in F.rule_sensitive_specs() if sp["label"].startswith("pairs")]
+    for sp, o in back:
+        for rev in (True, False):
+            for due in (False, True):
+                out.append((sp, dict(o, backward=True, rev=rev, due=due)))
     return out
 
 
@@ -82,7 +92,7 @@ def run(tier, seed):
         "rule": "FS workflows on 3 tasks x all cost-rate triples over {0,1,2.5} in two teams plus an empty team (runs to completion and runs cut by max_time=2 -> FAILURE) "
         "models whose workers and facilities share one name (different IDs), and the FAC family (workplaces with facilities of rates 1 and 2), each explored over all absence answers (project, each worker, each facility; thorough: also pairs) "
         "up to horizon H with <= D non-default answers; non-trivial = distinct (model, resource, charged rate>0, at-absence-step) events",
-        "bounds": {"H": H, "D": D, "base_models": len(its), "option_variants(unit_time 2/3, resumed at 1/2/3, absence steps inserted afterwards in any order, loaded from JSON)": len(oi)},
+        "bounds": {"H": H, "D": D, "base_models": len(its), "option_variants(unit_time 2/3, resumed at 1/2/3, absence steps inserted / removed afterwards, loaded from JSON, backward runs)": len(oi)},
         "assumptions": ["cost oracle reads the state logs; their agreement with the live state is C08's job"],
     }
     if not col.nontrivial:
